@@ -877,7 +877,11 @@ func (f *FuncCtx) havocPath(path string, bound map[string]Val, env *Env, pc *Pkg
 		// parameter with reference semantics (map / slice): write back a fresh value to the argument
 		for i := 0; i < osig.Params().Len(); i++ {
 			if osig.Params().At(i).Name() == p.Name && i < len(e.Args) {
-				nv := f.freshVal(osig.Params().At(i).Type(), "hv_"+p.Name)
+				pt := osig.Params().At(i).Type()
+				if _, isTP := pt.(*types.TypeParam); isTP {
+					pt = f.typeOf(e.Args[i])
+				}
+				nv := f.freshVal(pt, "hv_"+p.Name)
 				if f.spec == nil {
 					f.assign(e.Args[i], nv, env)
 				}
